@@ -1,4 +1,4 @@
-import CardVerif.Model.Evaluators
+import CardModel.Model.Evaluators
 /-!
 # The optimised Omaha evaluator
 
